@@ -2,6 +2,7 @@ package props
 
 import (
 	"fmt"
+	"sort"
 	"strings"
 	"time"
 
@@ -423,7 +424,18 @@ func runC11(c *Ctx) {
 				}
 			}
 		}
-		for k, es := range per {
+		var keys []key
+		for k := range per {
+			keys = append(keys, k)
+		}
+		sort.Slice(keys, func(i, j int) bool {
+			if keys[i].lvl != keys[j].lvl {
+				return keys[i].lvl < keys[j].lvl
+			}
+			return keys[i].cls < keys[j].cls
+		})
+		for _, k := range keys {
+			es := per[k]
 			base := model[k]
 			if base == nil {
 				continue
